@@ -81,7 +81,11 @@ func runC01(c *Ctx) {
 	for _, d := range disp {
 		decl := c.decl(interpPkg, d.fn)
 		if decl == nil {
-			c.ob("C01-R1", interpPkg+"."+d.fn+"#anchor-missing", token.NoPos, false, "dispatcher "+d.fn+" not found")
+			if unexported(d.fn) {
+				c.undecided("C01-R1: dispatcher %s not found (renamed or removed unexported function); rule cannot be evaluated", d.fn)
+			} else {
+				c.ob("C01-R1", interpPkg+"."+d.fn+"#anchor-missing", token.NoPos, false, "dispatcher "+d.fn+" not found")
+			}
 			continue
 		}
 		arms := typeSwitchArms(c, interpPkg, decl)
